@@ -118,6 +118,20 @@ _add("C07", _more("c05_backstop_invalid", "c05_cleanup_advance"))
 _add("C18", _more("c05_chain_resolves"))
 
 
+def _glob(*names):
+    return ["Sx.Glob." + n for n in names]
+
+
+_add("C01", _glob("own1_all_histories", "own_all_histories", "own_every_boundary", "c01_exact", "c01_exact_spec", "c01_isolation",
+                  "c01_continuity", "own_leads"))
+_add("C07", _glob("dead_all_histories", "dead_every_boundary", "c07_no_dead_full", "c07_dead_chain", "c07_dead_no_chain", "c07_dead_not_minted",
+                  "c07_served_not_dead", "c07_no_resurrection", "c07_never_comes_back", "c07_ending_cookie", "c07_destroy_marks"))
+_add("C08", _glob("c08_logoutUser", "c08_refresh", "c08_refresh_users", "c08_missing_skipped", "c08_login", "c08_login_HL", "c08_logout",
+                  "c08_after_logoutUser", "logoutUser_delta", "refreshUser_delta", "hlogin_delta", "hlogout_delta"))
+_add("C02", _glob("c07_no_resurrection", "c01_isolation"))
+_add("C09", _glob("own_all_histories"))
+
+
 # Theorems about facts REGENERATED from the source on every run (module to build, theorem names), per property.
 FACT_OBLIGATIONS = {
     "C02": [("Sessions.FactsBracketStart", ["FactsBrackets.start_looks_up_only_24"])],
